@@ -33,7 +33,7 @@ def apply_doc_op(doc, op):
         d[op[1]] = norm(op[2])
     elif kind == "update":
         d.update(norm(op[1]))
-    elif kind in ("reset", "assign"):
+    elif kind in ("reset", "assign", "assign_handle"):
         d = norm(op[1])
     elif kind == "clear":
         d = {}
@@ -42,11 +42,19 @@ def apply_doc_op(doc, op):
     return d
 
 
-def do_doc_op(handle, op, owner=None):
+def donor_sp(i):
+    return {"donor": i}
+
+
+def do_doc_op(handle, op, owner=None, donor=None):
     kind = op[0]
     if kind == "assign":
         # whole-document assignment through the property setter (job.doc = X / project.doc = X)
         owner.doc = op[1]
+        return
+    if kind == "assign_handle":
+        # ... where X is the live document of another job (dst.doc = src.doc)
+        owner.doc = donor.doc
         return
     if kind == "setitem":
         handle[op[1]] = op[2]
@@ -126,7 +134,8 @@ class Engine(EngineBase):
                 elif w == "update":
                     op = ["update", {"u1": tag, "u2": gen_value(rng, 1)}]
                 elif w == "reset":
-                    op = [rng.choice(["reset", "assign"]), {"r": tag, **gen_doc(rng, "small")}]
+                    op = [rng.choice(["reset", "assign", "assign", "assign_handle"]),
+                          {"r": tag, **gen_doc(rng, "small")}]
                 elif w == "reset_large":
                     big = gen_doc(rng, "large")
                     big["tag"] = tag
@@ -201,6 +210,8 @@ class Engine(EngineBase):
         targets = []
         if sc["target"] in ("jobdoc", "projdoc", "buffered"):
             for i, d in enumerate(sc["docs"]):
+                if d["op"][0] == "assign_handle":
+                    project.open_job(donor_sp(i)).init().doc.reset(d["op"][1])
                 if sc["target"] == "projdoc":
                     path = os.path.join(pp, PDOC_FILE)
                     if d["old"] is not None:
@@ -280,28 +291,32 @@ class Engine(EngineBase):
         t = sc["target"]
         if t == "cache":
             return lambda: project.update_cache()
+        def donor(i, op):
+            return project.open_job(donor_sp(i)) if op[0] == "assign_handle" else None
+
         if t == "projdoc":
             h = project.doc
             op = sc["docs"][0]["op"]
-            return lambda: do_doc_op(h, op, project)
+            dn = donor(0, op)
+            return lambda: do_doc_op(h, op, project, dn)
         handles = []
         for i, d in enumerate(sc["docs"]):
             job = project.open_job(sc["jobs"][i % len(sc["jobs"])])
-            handles.append((job.doc, d["op"], job))
+            handles.append((job.doc, d["op"], job, donor(i, d["op"])))
         if t == "jobdoc":
-            h, op, job = handles[0]
-            return lambda: do_doc_op(h, op, job)
+            h, op, job, dn = handles[0]
+            return lambda: do_doc_op(h, op, job, dn)
         cap = sc.get("capacity")
 
         def buffered():
             if cap is not None:
                 with signac.buffered(cap):
-                    for h, op, job in handles:
-                        do_doc_op(h, op, job)
+                    for h, op, job, dn in handles:
+                        do_doc_op(h, op, job, dn)
             else:
                 with signac.buffered():
-                    for h, op, job in handles:
-                        do_doc_op(h, op, job)
+                    for h, op, job, dn in handles:
+                        do_doc_op(h, op, job, dn)
 
         return buffered
 
